@@ -28,8 +28,6 @@ func validateArguments(doc *ast.Document, s *schema.Schema, features schema.Feat
 				ret = append(ret, newSecondaryError(node, "no type info for field"))
 				return false
 			}
-		case *ast.Argument:
-			ret = append(ret, newError(node, "unsupported argument location"))
 		}
 
 		if len(arguments) == 0 && len(argumentDefinitions) == 0 {
@@ -59,7 +57,10 @@ func validateArguments(doc *ast.Document, s *schema.Schema, features schema.Feat
 			}
 		}
 
-		return false
+		// Keep descending: directives on this field and the fields of its selection set have
+		// arguments of their own. (Arguments only ever appear beneath fields and directives, both
+		// of which are handled above.)
+		return true
 	})
 	return ret
 }
